@@ -278,15 +278,16 @@ class _Watchdog(threading.Thread):
             time.sleep(2)
 
 
-def run_harnesses(crate, harness_names, jobs=8, harness_timeout=600, total_timeout=3000, extra_flags=(), heavy=(), batch=None):
+def run_harnesses(crate, harness_names, jobs=8, harness_timeout=600, total_timeout=3000, extra_flags=(), heavy=(), batch=None, huge=()):
     """Run the harnesses in batches (one `cargo kani` invocation each) and merge the exported results.
 
     kani-driver holds the CBMC output of every harness of an invocation in memory; harnesses listed in `heavy` (long unwindings: several
     GB of driver memory each) run in their own batches with at most 3 jobs, the others in batches of FV_BATCH (default 40)."""
-    heavy = [h for h in harness_names if h in set(heavy)]
-    light = [h for h in harness_names if h not in set(heavy)]
+    huge = [h for h in harness_names if h in set(huge)]
+    heavy = [h for h in harness_names if h in set(heavy) and h not in huge]
+    light = [h for h in harness_names if h not in set(heavy) and h not in huge]
     bs = batch or int(os.environ.get("FV_BATCH", "40"))
-    batches = [(light[i:i + bs], jobs) for i in range(0, len(light), bs)] + [(heavy[i:i + 3], min(jobs, 3)) for i in range(0, len(heavy), 3)]
+    batches = [(light[i:i + bs], jobs) for i in range(0, len(light), bs)] + [(heavy[i:i + 3], min(jobs, 3)) for i in range(0, len(heavy), 3)] + [([h], 1) for h in huge]
     t0 = time.time()
     merged = None
     res = dict(cmd="", out="", json=None, wall_s=0.0, timed_out=False, rc=0, killed=[], peak_rss_kb=0, peak_driver_kb=0, batches=len(batches))
